@@ -1735,7 +1735,7 @@ def run(ctx: Ctx) -> int:
 		statements=STATEMENTS,
 		partial={
 			'proved': 'a different value is never produced: agreement of value and type (no guard; string tokens with octal, \\xhh, \\uhhhh, \\Uhhhhhhhh and one-character escapes included), or refusal, for every expression of the model (literals, unary sign, parentheses, the ten operators in flat chains, casts, member references), for every interpretation of float',
-			'correspondence_only': 'that execImpl is LiteralEvaluator on the Procedure machine and evalPy is CPython (incl. floor %, shifts, two\'s-complement bitwise ops, int()/float()/str() spellings)',
+			'correspondence_only': 'that execImpl is LiteralEvaluator on the Procedure machine and evalPy is CPython (incl. floor %, shifts, two\'s-complement bitwise ops, int()/float()/str() spellings); the control flow of the 20 hand-transcribed methods of LiteralEvaluator and of the value branch of Py2Cpp.on_relay is additionally pinned by the translators (normalised source against translate/c17_modelled_source.json, handler set: a change = broken tie); operator tables, ladders, quote lists, cast names/arity, join patterns, the template, the Unicode digit blocks, the blanks of int() and the one-character escapes are generated on every run',
 			'search_only': 'IEEE behaviour of the real floats; that the C++ reader cppBytes is what a C++ compiler does is tied to g++ by the stream cppread (and the search reads every emitted string literal with an independent reader written from the standard, checked against g++ in the same stream)',
 			'outside': 'string tokens with \\N{...} or an escape of a lone surrogate (evalPy answers unsupported; never generated)',
 		},
